@@ -255,60 +255,87 @@ pub fn eval_edge(c: &EdgeCase) -> Eval {
     Ok(Report::new(true).class_if(m > (1 << 24), "m>2^24").class_if(m > 65536, "m>2^16").class_if(grid_checked, "dyadic-grid-exact-uniformity"))
 }
 
-/// cell boundaries of the first draw (exact): see `eval_cells`
+/// cell boundaries of a draw (exact): see `eval_cells`
 #[derive(Clone, Debug, Serialize, Deserialize)]
 pub struct CellCase {
     pub m: usize,
-    /// positions, reduced modulo m
+    /// positions, reduced modulo the number of values still undrawn
     pub cells: Vec<u64>,
+    /// generator words of the draws made before the examined one (0..3 of them)
+    #[serde(default)]
+    pub pre: Vec<u64>,
 }
 
-/// The first draw of a reset instance is a function of one generator word. When that function is monotone in the word (verified on
-/// the build under test, otherwise the sub-check is skipped), the words mapped to one value form an interval, and uniformity of the
-/// first draw requires every interval to have length 1/m, i.e. the boundaries to sit at p/m. Exact check at resolution 2^-40: the
-/// words p/m + 2^-40 and (p+1)/m - 2^-40 must give the same value, and the next cell a different one. A variate of too low
-/// resolution (or a scaled range) moves the boundaries and fails for every m that is not a power of two.
+/// After a reset and the fixed earlier draws `pre`, the next draw is a function of one generator word. When the words mapped to one
+/// value form an interval (verified on the build under test over 65 probe words: no value may come back after another one appeared;
+/// otherwise the sub-check is skipped), uniformity of the draw over the r = m - |pre| values still undrawn requires every interval to
+/// have length 1/r, i.e. the boundaries to sit at p/r. Exact check at resolution 2^-40: the words p/r + 2^-40 and (p+1)/r - 2^-40 must
+/// give the same value, and the next cell a different one. A variate of too low resolution, a scaled range or a masked index moves
+/// the boundaries.
 pub fn eval_cells(c: &CellCase) -> Eval {
     let m = c.m;
-    ensure!(m >= 2, "generator error");
+    ensure!(m >= 2 && c.pre.len() + 2 <= m, "generator error");
+    let r = (m - c.pre.len()) as u128;
     let mut fy = FYshuffle::new(m);
-    let mut first = |w: u64| -> usize {
+    let mut words = c.pre.clone();
+    words.push(0);
+    let np = c.pre.len();
+    let mut draw = |w: u64| -> usize {
         fy.reset();
-        let mut g = Scripted::new(&[w], 1);
-        fy.next(&mut g)
+        words[np] = w;
+        let mut g = Scripted::new(&words, 1);
+        let mut x = 0;
+        for _ in 0..=np {
+            x = fy.next(&mut g);
+        }
+        x
     };
-    // structure probe: monotone (either direction) over 65 equally spaced words and consuming the word as a 53-bit fraction or finer
-    let probe: Vec<usize> = (0..=64u64).map(|j| first(if j == 64 { u64::MAX } else { j << 58 })).collect();
-    let inc = probe.windows(2).all(|w| w[0] <= w[1]);
-    let dec = probe.windows(2).all(|w| w[0] >= w[1]);
-    if !(inc || dec) || probe[0] == probe[64] {
-        return Ok(Report::new(false).class("first-draw-not-monotone-in-the-generator-word(skipped)"));
+    // structure probe: every value occupies one contiguous run of the 65 ordered probe words
+    let probe: Vec<usize> = (0..=64u64).map(|j| draw(if j == 64 { u64::MAX } else { j << 58 })).collect();
+    let mut seen = std::collections::HashSet::new();
+    let mut contiguous = true;
+    for i in 0..probe.len() {
+        if i > 0 && probe[i] == probe[i - 1] {
+            continue;
+        }
+        if !seen.insert(probe[i]) {
+            contiguous = false;
+        }
+    }
+    if !contiguous || seen.len() < 2 {
+        return Ok(Report::new(false).class("draw-not-piecewise-constant-in-the-generator-word(skipped)"));
     }
     let d: u128 = 1u128 << 24; // 2^-40 of the unit interval, in units of 2^-64
-    let edge = |p: u128| -> u128 { (p << 64) / m as u128 }; // floor(p 2^64 / m)
+    let edge = |p: u128| -> u128 { (p << 64) / r }; // floor(p 2^64 / r)
     let mut checked = 0u64;
     for raw in c.cells.iter() {
-        let p = (*raw % m as u64) as u128;
+        let p = (*raw % r as u64) as u128;
         let lo = edge(p) + 1 + d;
-        let hi = if p + 1 == m as u128 { (1u128 << 64) - 1 } else { edge(p + 1) - d };
+        let hi = if p + 1 == r { (1u128 << 64) - 1 } else { edge(p + 1) - d };
         if hi <= lo {
             continue;
         }
-        let (a, b) = (first(lo as u64), first(hi as u64));
-        ensure!(a < m && b < m, "m = {}: first draw out of range", m);
-        ensure!(a == b, "m = {}: the generator words {:#x} and {:#x}, both inside the cell [{}/m, {}/m) of the unit interval (2^-40 away from its ends), give different first draws {} and {}: the values are not hit by intervals of length 1/m, so the first draw is not uniform", m, lo as u64, hi as u64, p, p + 1, a, b);
-        if p + 1 < m as u128 {
-            let nx = first((edge(p + 1) + 1 + d) as u64);
-            ensure!(nx != a, "m = {}: the generator words {:#x} (cell {}) and {:#x} (cell {}) of the m equal cells of the unit interval give the same first draw {}: that value is hit with probability above 1/m", m, lo as u64, p, (edge(p + 1) + 1 + d) as u64, p + 1, a);
+        let (a, b) = (draw(lo as u64), draw(hi as u64));
+        ensure!(a < m && b < m, "m = {}: draw out of range", m);
+        ensure!(a == b, "m = {}, draw number {} after a reset (earlier generator words {:x?}): the generator words {:#x} and {:#x}, both inside the cell [{}/{}, {}/{}) of the unit interval (2^-40 away from its ends), give different values {} and {}: the {} values still undrawn are not hit by intervals of equal length, so the draw is not uniform", m, np + 1, c.pre, lo as u64, hi as u64, p, r, p + 1, r, a, b, r);
+        if p + 1 < r {
+            let nx = draw((edge(p + 1) + 1 + d) as u64);
+            ensure!(nx != a, "m = {}, draw number {} after a reset (earlier generator words {:x?}): the generator words {:#x} (cell {}) and {:#x} (cell {}) of the {} equal cells of the unit interval give the same value {}: that value is drawn with probability above 1/{}", m, np + 1, c.pre, lo as u64, p, (edge(p + 1) + 1 + d) as u64, p + 1, r, a, r);
         }
         checked += 1;
     }
-    Ok(Report::new(checked > 0).class_if(!m.is_power_of_two(), "m-not-a-power-of-two").class_if(m > 65536, "m>2^16"))
+    Ok(Report::new(checked > 0).class_if(!m.is_power_of_two(), "m-not-a-power-of-two").class_if(m > 65536, "m>2^16").class_if(np > 0, "later-draw(after-1..3-fixed-draws)"))
 }
 
 fn cell_strategy() -> impl Strategy<Value = CellCase> {
-    let m = prop_oneof![3 => 2usize..300, 2 => 300usize..70_000, 1 => 70_000usize..1_100_000, 1 => prop::sample::select(vec![3usize, 5, 6, 7, 1000, 4095, 4097, 65_535, 65_537, 400_000, (1 << 20) - 1, (1 << 20) + 1])];
-    (m, prop::collection::vec(prop_oneof![4 => any::<u64>(), 1 => 0u64..3, 1 => (0u64..3).prop_map(|x| u64::MAX - x)], 1..12)).prop_map(|(m, cells)| CellCase { m, cells })
+    let m = prop_oneof![
+        3 => 5usize..300,
+        2 => 300usize..70_000,
+        1 => 70_000usize..1_100_000,
+        1 => prop::sample::select(vec![5usize, 6, 7, 1000, 4095, 4097, 65_535, 65_537, 400_000, (1 << 20) - 1, (1 << 20) + 1]),
+        1 => prop::sample::select(vec![8usize, 16, 64, 128, 256, 1024, 4096, 65_536]),
+    ];
+    (m, prop::collection::vec(prop_oneof![4 => any::<u64>(), 1 => 0u64..3, 1 => (0u64..3).prop_map(|x| u64::MAX - x)], 1..12), prop_oneof![1 => Just(vec![]), 1 => prop::collection::vec(word(), 1..4)]).prop_map(|(m, cells, pre)| CellCase { m, cells, pre })
 }
 
 /// very many resets on one instance (each followed by a few draws): afterwards the instance must still behave like a new one
@@ -372,7 +399,7 @@ fn edge_strategy() -> impl Strategy<Value = EdgeCase> {
 pub fn run(ctx: &Ctx) {
     ctx.set_rule("(a) exact: proptest generates (m in 1..200, scripted generator words incl. 0, u64::MAX and the words around the top of the unit interval, a count of earlier draws before a reset, 1..3 blocks); a new instance, a reset new instance and an instance with history + reset \
         are fed the identical word stream: every block of m draws must be a permutation of 0..m-1, the three instances must agree draw by draw, get_values() must be a permutation (and equal the drawn sequence after the first block). Non-trivial = m >= 2. \
-        (b) uniformity: with a Xoshiro256++ generator seeded from the case, N permutations are drawn (with reset each time, or relying on the wrap-around); for m <= 5 all m! orders, and for every m <= 64 all m^2 (draw index, value) cells must have frequency 1/cells within a per-cell Bernstein bound with a union bound over the cells (delta 1e-14), confirmed on an independent seed. (c) edges: sizes up to 2^24 + 3 with generator words at the top of the unit interval (draws must stay in range and distinct); exact uniformity of the first draw over the dyadic grid of generator words j*2^(64-k) for m a power of two; cells: for m in 2 .. 1.1e6 (mostly not powers of two) and generated cells p, the generator words p/m + 2^-40 and (p+1)/m - 2^-40 must give the same first draw and the neighbouring cell a different one (exact; applies when the first draw is monotone in the generator word, which is verified per case and the case is reported as skipped otherwise). (d) reset-storm: 100 .. 131 080 resets on one instance with a few draws in between, then compared draw by draw with a new instance.");
+        (b) uniformity: with a Xoshiro256++ generator seeded from the case, N permutations are drawn (with reset each time, or relying on the wrap-around); for m <= 5 all m! orders, and for every m <= 64 all m^2 (draw index, value) cells must have frequency 1/cells within a per-cell Bernstein bound with a union bound over the cells (delta 1e-14), confirmed on an independent seed. (c) edges: sizes up to 2^24 + 3 with generator words at the top of the unit interval (draws must stay in range and distinct); exact uniformity of the first draw over the dyadic grid of generator words j*2^(64-k) for m a power of two; cells: for m in 5 .. 1.1e6 (powers of two and others), 0..3 fixed earlier draws and generated cells p of the r values still undrawn, the generator words p/r + 2^-40 and (p+1)/r - 2^-40 must give the same value and the neighbouring cell a different one (exact; applies when the draw is piecewise constant with one interval per value, which is verified per case over 65 probe words and the case is reported as skipped otherwise). (d) reset-storm: 100 .. 131 080 resets on one instance with a few draws in between, then compared draw by draw with a new instance.");
     ctx.assume("no bit-exact reference shuffle is used: a different but correct Fisher-Yates implementation would not be flagged");
     super::run_fixed_tier(ctx, replay);
     let (cases, max_m) = ctx.tier.pick((150_000, 200), (3_000_000, 600));
